@@ -50,7 +50,7 @@ type SleepPlan struct {
 func genSleep(t *rapid.T) SleepPlan {
 	p := SleepPlan{}
 	p.D = rapid.SampledFrom([]int64{-5, 0, 1, 1000, int64(time.Millisecond), int64(time.Second), int64(time.Hour), 1 << 50}).Draw(t, "d")
-	p.Ctx = rapid.SampledFrom([]string{"bg", "deadline", "deadline", "cancelled", "cancel-at", "deadline+cancel", "cancelled+deadline"}).Draw(t, "ctx")
+	p.Ctx = rapid.SampledFrom([]string{"bg", "deadline", "deadline", "cancelled", "cancel-at", "deadline+cancel", "cancelled+deadline", "expired-deadline"}).Draw(t, "ctx")
 	d := p.D
 	if d < 2 {
 		d = 1000
@@ -75,6 +75,13 @@ func runSleep(p SleepPlan) (vk.Outcome, error) {
 			}
 		}()
 		hasDeadline, cancelAt := false, int64(-1)
+		if p.Ctx == "expired-deadline" { // the deadline passed before the call
+			var c context.CancelFunc
+			ctx, c = context.WithTimeout(ctx, -time.Second)
+			cancels = append(cancels, c)
+			hasDeadline = true
+			p.Deadline = -int64(time.Second)
+		}
 		switch p.Ctx {
 		case "deadline", "deadline+cancel", "cancelled+deadline":
 			var c context.CancelFunc
@@ -140,7 +147,7 @@ func runSleep(p SleepPlan) (vk.Outcome, error) {
 			// already done: the context's error at once; if its deadline is also closer than d either answer is allowed
 			if elapsed != 0 {
 				fail("context already done: must return at once")
-			} else if !(errors.Is(err, context.Canceled) || (tooSoonExpected && isTooSoon)) {
+			} else if !(errors.Is(err, context.Canceled) || errors.Is(err, context.DeadlineExceeded) || (tooSoonExpected && isTooSoon)) {
 				fail("context already done: want its error")
 			}
 			return
